@@ -548,7 +548,7 @@ func (en Enum) Generate(w *iohelp.ErrorWriter, settings GenerateSettings) {
 		for _, opt := range en.Options {
 			writeComment(w, 1, opt.Comment, settings)
 			if opt.Deprecated {
-				writeLine(w, "\t// Deprecated: %s", opt.DeprecatedMessage)
+				writeDeprecated(w, opt.DeprecatedMessage)
 			}
 			if en.Unsigned {
 				writeLine(w, "\t%s_%s %s = %d", exposedName, opt.Name, exposedName, opt.UintValue)
@@ -588,7 +588,7 @@ func (con Const) Generate(w io.Writer, settings GenerateSettings) {
 func writeFieldDefinition(fd Field, w *iohelp.ErrorWriter, readOnly bool, message bool, settings GenerateSettings) {
 	writeComment(w, 1, fd.Comment, settings)
 	if fd.Deprecated {
-		writeLine(w, "\t// Deprecated: %s", fd.DeprecatedMessage)
+		writeDeprecated(w, fd.DeprecatedMessage)
 	}
 
 	name := exposeName(fd.Name, settings)
@@ -917,6 +917,19 @@ func getLineWithTabs(format string, depth int, args ...string) string {
 	b := new(bytes.Buffer)
 	writeLineWithTabs(b, format, depth, args...)
 	return b.String()
+}
+
+// writeDeprecated writes the "Deprecated:" paragraph of a field or enum option. The message is a
+// schema string and may contain line breaks; every line of it stays inside the comment.
+func writeDeprecated(w *iohelp.ErrorWriter, message string) {
+	message = strings.ReplaceAll(message, "\r", " ")
+	for i, line := range strings.Split(message, "\n") {
+		if i == 0 {
+			writeLine(w, "\t// Deprecated: %s", line)
+		} else {
+			writeLine(w, "\t// %s", line)
+		}
+	}
 }
 
 func writeComment(w *iohelp.ErrorWriter, depth int, comment string, settings GenerateSettings) {
